@@ -100,7 +100,7 @@ def case_strategy(draw, tier="quick", mode=None, kinds=None):
         cm = {str(i): draw(st.sampled_from(["sync", "coro"])) for i in sinks}
     else:
         cm = {str(i): "sync" for i in sinks}
-    md = draw(st.lists(st.sampled_from([1, 1, 2, 0]), min_size=1, max_size=4))
+    md = draw(st.lists(st.sampled_from([1, 1, 2, 0, 4]), min_size=1, max_size=4))
     # class of the injected user-function failures (plain synchronous operation only: inside a
     # coroutine Python itself turns a StopIteration into a RuntimeError)
     exc = draw(st.sampled_from(["Boom", "Boom", "BoomStop", "BoomKey", "BoomAttr", "BoomType"])) \
@@ -374,7 +374,7 @@ def below_flatten_case(draw, tier="quick"):
                            max_size=12))
     return {"spec": {"nodes": nodes, "fb": None}, "events": [list(e) for e in events],
             "faults": faults, "mode": "sync", "cmodes": {str(len(nodes) - 1): "sync"},
-            "md": draw(st.lists(st.sampled_from([1, 1, 2, 0]), min_size=1, max_size=4)),
+            "md": draw(st.lists(st.sampled_from([1, 1, 2, 0, 4]), min_size=1, max_size=4)),
             "exc": draw(st.sampled_from(["Boom", "BoomStop", "BoomKey", "BoomAttr", "BoomType"])),
             "prelude": False}
 
